@@ -64,7 +64,8 @@ type Input struct {
 	Extra      []string  `json:"extra"` // further directories created below the layers directory
 	Procs      []ProcJ   `json:"procs"`
 	Fault      *FaultJ   `json:"fault"`
-	Status     string    `json:"status"` // non-empty: observe `layercake status <layer>`
+	BaseLink   bool      `json:"base_link"` // the configured base path reaches the base directory through a symbolic link
+	Status     string    `json:"status"`    // non-empty: observe `layercake status <layer>`
 	Live       bool      `json:"live"`   // real helper processes on the real /proc instead of a fake tree
 	LiveProcs  []LiveJ   `json:"live_procs"`
 	Churn      int       `json:"churn"` // live: further scan rounds while other processes are created and reaped
